@@ -330,13 +330,15 @@ def prove(prog, s, ctx):
                             if all((gl == r and gop in ('>', '!=') and gr == '0') or (gl, gop, gr, gn) in facts for gl, gop, gr, gn in gf):
                                 return 'ok', 'G2c', 'container was resized to %s before the loop over [0, %s)' % (r, r)
         # G6b: the index is the result of the object's own index-by-name function over the same container
-        if In['k'] == 'DeclRefExpr' and In['decl'].get('dk') == 'local' and C.startswith('this.') and C.count('.') == 1:
+        if ((In['k'] == 'DeclRefExpr' and In['decl'].get('dk') == 'local') or In['k'] == 'CXXMemberCallExpr') and C.startswith('this.') and C.count('.') == 1:
             from paths import local_init
             defs = []
-            ini = local_init(f, In['decl']['id'])
+            if In['k'] == 'CXXMemberCallExpr':
+                defs.append(In['id'])
+            ini = local_init(f, In['decl']['id']) if In['k'] == 'DeclRefExpr' else None
             if ini is not None:
                 defs.append(ini)
-            for a_ in f.all_nodes({'BinaryOperator'}):
+            for a_ in (f.all_nodes({'BinaryOperator'}) if In['k'] == 'DeclRefExpr' else []):
                 if a_['op'] == '=':
                     t_ = f.nodes[f.strip(a_['ch'][0], 'all')]
                     if t_['k'] == 'DeclRefExpr' and t_['decl'].get('id') == In['decl']['id']:
